@@ -576,6 +576,28 @@ func (c *Ctx) Bin(op Op, a, b *Term) *Term {
 			return a
 		}
 	}
+	// (x + k1) - (x + k2) == k1 - k2 for exact linear forms
+	if op == OSub && !a.IsConst() && !b.IsConst() && (a.Op == OAdd || b.Op == OAdd || a.Op == OLin || b.Op == OLin) {
+		la, lb := c.linear(a, 6), c.linear(b, 6)
+		same := len(la.coef) == len(lb.coef)
+		if same {
+			for t, co := range la.coef {
+				if o, ok := lb.coef[t]; !ok || o.Cmp(co) != 0 {
+					same = false
+					break
+				}
+			}
+		}
+		if same {
+			d := new(big.Int).Sub(la.k, lb.k)
+			if fits(s, d, d) {
+				if d.Sign() < 0 {
+					return c.Const(s, uint64(d.Int64()))
+				}
+				return c.Const(s, d.Uint64())
+			}
+		}
+	}
 	// x - (x/k)*k  ==  x % k   (Go semantics, any sign)
 	if op == OSub && b.Op == OMul {
 		for i := 0; i < 2; i++ {
